@@ -1049,14 +1049,28 @@ func (g *G) defun() *sx.N {
 		p0 := formals[0].S
 		rec := sx.Call(name, append([]*sx.N{sx.Call("-", sx.Y(p0), sx.I(1))}, g.argsN(b.req-1)...)...)
 		var step *sx.N
-		if g.R.Bool() {
+		headCall := false
+		switch {
+		case b.req == 1 && g.R.Chance(1, 4):
+			// the recursive step is a call whose HEAD is itself a call into the function
+			// (which, for a negative argument, answers with a function that continues it):
+			// a head is evaluated like any operand, never as a tail call
+			headCall = true
+			step = sx.L(sx.Call(name, sx.I(-1)), sx.Call("-", sx.Y(p0), sx.I(1)))
+			g.feat("head-call-recursion")
+		case g.R.Bool():
 			step = rec // tail position
 			g.feat("tail-recursion")
-		} else {
+		default:
 			step = sx.Call("+", sx.I(1), rec)
 			g.feat("recursion")
 		}
-		body = append(body, sx.Call("if", sx.Call("<=", sx.Y(p0), sx.I(0)), g.expr(TInt, 2), step))
+		inner := sx.Call("if", sx.Call("<=", sx.Y(p0), sx.I(0)), g.expr(TInt, 2), step)
+		if headCall {
+			inner = sx.Call("if", sx.Call("<", sx.Y(p0), sx.I(0)), sx.Call("lambda", sx.L(sx.Y("hc-a")), sx.Call(name, sx.Y("hc-a"))),
+				sx.Call("if", sx.Call("=", sx.Y(p0), sx.I(0)), g.expr(TInt, 2), step))
+		}
+		body = append(body, inner)
 		g.globals = g.globals[:len(g.globals)-1]
 	} else {
 		for i := g.R.Intn(2); i > 0; i-- {
